@@ -296,6 +296,11 @@ const XMLCh * DOMCharacterDataImpl::substringData(const DOMNode *node, XMLSize_t
     if (offset > len)
         throw DOMException(DOMException::INDEX_SIZE_ERR, 0, GetDOMCharacterDataImplMemoryManager);
 
+    // A count that extends off the end of the data means "to the end"; without this
+    // the terminator below is written at newString[count], outside the buffer.
+    if (count > len - offset)
+        count = len - offset;
+
     DOMDocumentImpl *doc = (DOMDocumentImpl *)node->getOwnerDocument();
 
     XMLCh* newString;
